@@ -220,3 +220,13 @@ _p('C15', ['r_builder', 'r_control', 'r_table', 'r_pushpair', 'r_sorted', 'r_vis
    'first, one counter increment per used local) and no binary search over unsorted user vectors (R-SORTED).',
    not_decided='the in-order flattening of an arbitrary built tree as a whole (composition of the above; not executed); '
                'well-typedness of what the user builds')
+
+_p('C09', ['r_par', 'r_nondet'],
+   'Both cargo configurations are analysed: the bodies whose callee multiset differs between the serial and the parallel build '
+   'must be exactly the maybe_parallel! users (any other configuration-dependent code - e.g. a different sort - is reported); '
+   'every into_par_iter pipeline is order-preserving adaptors + collect::<Vec<_>>, every unindexed par_iter pipeline ends in a '
+   'commutative reduction; nothing reachable from the pipelines\' closures uses a synchronisation / interior-mutability API; '
+   'R-NONDET (on both configurations) excludes hash-order dependence.',
+   not_decided='rayon\'s own correctness (indexed collect preserves order: documented, trusted); behaviour under concrete schedules '
+               'and thread counts (not executed)',
+   needs_parallel=True)
